@@ -65,3 +65,12 @@ Print Assumptions C18_refuted_1.
 Theorem C18_holds : forall c, wf c = true -> kf c = 0%N -> spec c (model c) = true.
 Proof. exact C18_holds_proof. Qed.
 Print Assumptions C18_holds.
+
+(* carried to the binary (Model/Whole.v): whatever the configuration files in the file tree and
+   the -config / -basepath switches say, the configuration the commands of cmd/layercake work
+   with has clean absolute base, layers and exports directories *)
+From LC Require Import Model.FsTree Model.Layers Model.Whole Proofs.WholeP.
+Theorem C18_binary_cfg_clean : forall argv f c, loaded_cfg argv f = Some c ->
+  is_clean_abs (c_base c) = true /\ is_clean_abs (c_layers c) = true /\ is_clean_abs (c_exports c) = true.
+Proof. exact whole_cfg_clean. Qed.
+Print Assumptions C18_binary_cfg_clean.
